@@ -49,6 +49,7 @@ struct RxProg {
     RxSeg seg[QM_RX_MAXSEG];
     QString words[QM_RX_MAXWORDS];
     int nwords;
+    bool det;               // the program is in the deterministic anchored fragment (rx_prog_is_det): one left-to-right scan decides
 };
 
 static inline bool rx_cls_match(const RxSeg &s, ushort c)
@@ -97,6 +98,7 @@ struct RxPat {
     const ushort *u; const char *c; int m_len;
     ushort at(int i) const { return u ? u[i] : ushort(uchar(c[i])); }   // literals are read in place (constant global arrays fold in symex)
 };
+static inline bool rx_prog_is_det(const RxProg &pr);
 static inline void rx_compile(const RxPat &pat, int LB, RxProg &pr)
 {
     pr.valid = true; pr.anchorStart = false; pr.anchorEnd = false; pr.n = 0; pr.ncap = 0; pr.nwords = 0;
@@ -216,6 +218,7 @@ static inline void rx_compile(const RxPat &pat, int LB, RxProg &pr)
     }
     QM_LIMIT(pos >= L);           // pattern longer than the model can hold
     QM_LIMIT(openSeg < 0);        // unbalanced '(' : PCRE reports an invalid pattern; not modelled
+    pr.det = rx_prog_is_det(pr);
 }
 
 static inline bool rx_word_at(const QString &subj, int p, const QString &word)
@@ -232,11 +235,94 @@ struct RxResult {
     int cs[QM_RX_MAXCAP + 1], ce[QM_RX_MAXCAP + 1];    // capture extents, -1 = did not participate
 };
 
+// ---- deterministic anchored fragment.  A program  ^ s1 s2 ... sn $  whose segments are literal runs, fixed-count atoms,
+// GREEDY atoms whose follow set is disjoint from their class (the next literal's first character is not in the class, or the
+// program ends), plain capture groups, and at most one OPTIONAL group of literal runs at the very end, has exactly one way to
+// match: a backtracking engine can never succeed with a shorter greedy run (the next character would have to be both in the
+// class and equal to a literal outside it) and the optional tail is present iff characters remain.  Such programs (the
+// rotated-file-name expressions of rotatingfilesink.cpp) are decided by one left-to-right scan with concrete loop indices
+// instead of the segments x positions dynamic programme.  In concrete builds both engines run and must agree (QM_ASSERT).
+static inline bool rx_prog_is_det(const RxProg &pr)
+{
+    bool det = pr.anchorStart && pr.anchorEnd;
+    const int N = pr.n;
+    bool inOpt = false; int optEnd = -1;
+    for (int i = 0; i < QM_RX_MAXSEG; ++i) if (i < N) {
+        const RxSeg seg = pr.seg[i];
+        if (seg.type == RX_ALT) det = false;
+        else if (seg.type == RX_GOPEN) {
+            if (seg.opt) { if (inOpt || seg.jump != N) det = false; inOpt = true; optEnd = seg.jump - 1; }
+            else if (inOpt) det = false;
+        } else if (seg.type == RX_GCLOSE) { /* bookkeeping only */ }
+        else if (seg.type == RX_STR) { if (seg.slen < 1) det = false; }
+        else {        // RX_ATOM
+            if (inOpt || seg.lazy) det = false;
+            if (!(seg.min == seg.max)) {
+                if (seg.max >= 0) det = false;          // {n,m}: outside the fragment
+                // follow set: skip group closes; then a literal outside the class, an optional tail starting with such a literal, or the end
+                int j = i + 1; bool ok = false; bool done = false;
+                for (int k = 0; k < 3; ++k) if (!done) {
+                    if (j >= N) { ok = true; done = true; }
+                    else {
+                        const RxSeg nx = pr.seg[j < QM_RX_MAXSEG ? j : 0];
+                        if (nx.type == RX_GCLOSE) ++j;
+                        else if (nx.type == RX_GOPEN && nx.opt) ++j;       // (its first segment is checked next; the alternative "absent" means the end)
+                        else if (nx.type == RX_STR) { ok = nx.slen >= 1 && !rx_cls_match(seg, nx.str[0]); done = true; }
+                        else { ok = false; done = true; }
+                    }
+                }
+                if (!ok) det = false;
+            }
+        }
+    }
+    return det;
+}
+
+static inline void rx_exec_det(const RxProg &pr, const QString &subj, RxResult &res)
+{
+    const int L = subj.m_len;
+    const int N = pr.n;
+    res.has = false; res.start = -1; res.end = -1;
+    int cs[QM_RX_MAXCAP + 1], ce[QM_RX_MAXCAP + 1];
+    for (int g = 0; g <= QM_RX_MAXCAP; ++g) { res.cs[g] = -1; res.ce[g] = -1; cs[g] = -1; ce[g] = -1; }
+    QM_LIMIT(!(L > 0 && subj.m_d[L - 1 < 0 ? 0 : L - 1] == '\n'));     // '$' before a final newline: not modelled
+    bool ok = true; int p = 0; bool skipping = false;
+    for (int i = 0; i < QM_RX_MAXSEG; ++i) if (i < N) {
+        const RxSeg seg = pr.seg[i];
+        const int type = seg.type, smin = seg.min, smax = seg.max, slen = seg.slen, cap = seg.cap;
+        if (type == RX_GOPEN) {
+            if (seg.opt && p >= L) skipping = true;         // nothing left: the optional tail is absent
+            else if (cap) for (int g = 0; g <= QM_RX_MAXCAP; ++g) if (g == cap) cs[g] = p;
+        } else if (skipping) { /* inside the absent optional tail */ }
+        else if (type == RX_GCLOSE) {
+            if (cap) for (int g = 0; g <= QM_RX_MAXCAP; ++g) if (g == cap) ce[g] = p;
+        } else if (type == RX_STR) {
+            if (p + slen > L) ok = false;
+            for (int q = 0; q < QM_STR_CAP; ++q) if (q >= p && q < p + slen && q < L) {
+                const int k = q - p;
+                if (subj.m_d[q] != seg.str[k >= 0 && k < QM_RX_STRMAX ? k : 0]) ok = false;
+            }
+            p += slen;
+        } else {      // RX_ATOM
+            int run = 0; bool alive = true;
+            for (int q = 0; q < QM_STR_CAP; ++q) if (q >= p && q < L && alive) { if (rx_cls_match(seg, subj.m_d[q])) ++run; else alive = false; }
+            int take = smin == smax ? smin : run;
+            if (run < smin) ok = false;
+            p += take;
+        }
+        if (p > L) { ok = false; p = L; }
+    }
+    if (p != L) ok = false;
+    if (!ok) return;
+    res.has = true; res.start = 0; res.end = L;
+    for (int g = 0; g <= QM_RX_MAXCAP; ++g) { res.cs[g] = cs[g]; res.ce[g] = ce[g]; }
+}
+
 // DP tables are deliberately flat arrays of more than 64 elements: CBMC then treats them through array theory instead of
 // expanding them field by field on every access (an access costs time proportional to the number of leaves of its root object).
 #define QM_RX_W (QM_STR_CAP + 2)
 #define QM_RX_TAB ((QM_RX_MAXSEG + 1) * QM_RX_W < 80 ? 80 : (QM_RX_MAXSEG + 1) * QM_RX_W)
-static inline void rx_exec(const RxProg &pr, const QString &subj, int from, RxResult &res)
+static inline void rx_exec_generic(const RxProg &pr, const QString &subj, int from, RxResult &res)
 {
     const int L = subj.m_len;
     const int N = pr.n;
@@ -324,6 +410,22 @@ static inline void rx_exec(const RxProg &pr, const QString &subj, int from, RxRe
         }
     }
     res.end = p;
+}
+
+static inline void rx_exec(const RxProg &pr, const QString &subj, int from, RxResult &res)
+{
+    if (pr.det && from == 0) {
+        rx_exec_det(pr, subj, res);
+#ifdef VF_CONCRETE
+        // concrete builds (conformance runs, native replays): the two engines must agree
+        RxResult g; rx_exec_generic(pr, subj, from, g);
+        bool same = g.has == res.has;
+        if (same && g.has) { same = g.start == res.start && g.end == res.end; for (int k = 0; k <= QM_RX_MAXCAP; ++k) if (g.cs[k] != res.cs[k] || g.ce[k] != res.ce[k]) same = false; }
+        QM_ASSERT(same, "regex model: deterministic scan and generic engine disagree");
+#endif
+        return;
+    }
+    rx_exec_generic(pr, subj, from, res);
 }
 
 // ---- flat fragment (used for patterns whose TEXT is symbolic, -DQM_RX_FLAT): a sequence of single-character atoms
@@ -491,7 +593,7 @@ public:
     RxFlat m_flat;
 #endif
     bool m_special_time;      // filesink.cpp's "(.*)%{time *(.*?)}(.*)": only "no match" is modelled
-    QRegularExpression() : m_special_time(false) { m_prog.valid = true; m_prog.n = 0; m_prog.anchorStart = false; m_prog.anchorEnd = false; m_prog.ncap = 0; m_prog.nwords = 0; }
+    QRegularExpression() : m_special_time(false) { m_prog.det = false; m_prog.valid = true; m_prog.n = 0; m_prog.anchorStart = false; m_prog.anchorEnd = false; m_prog.ncap = 0; m_prog.nwords = 0; }
     QRegularExpression(const QString &p, int options = 0) : m_pattern(p), m_special_time(false)
     {
         QM_LIMIT(options == 0);
